@@ -9,12 +9,23 @@
 #include "../C02/nonls.h"
 enum { NVE_csearch_status_failed = 0, NVE_csearch_status_max_iters = 1, NVE_csearch_status_converged = 2, NVE_csearch_status_null_step = 3,
        NVE_csearch_status_descent_step = 4, NVE_csearch_status_cutting_plane_step = 5 };
-struct nv_pbundle { uint64_t ver, solved_ver; struct nv_vec m_x, m_gx; double m_fx; };
+struct nv_pbundle { uint64_t ver, solved_ver; struct nv_vec m_x, m_gx; double m_fx; double prev_fx; /* ghost: centre value before the last moveto */ };
 struct nv_point { double m_t; int32_t m_status; struct nv_vec m_y, m_gy; double m_fy; };
 struct nv_csearch { struct nv_function m_function; double m_m1, m_m2, m_m3, m_m4, m_interpol, m_extrapol; struct nv_point m_point; };
+#define NV_SERIOUS(st) ((st) == NVE_csearch_status_descent_step || (st) == NVE_csearch_status_cutting_plane_step)
+/* sufficient descent of the trial value fy against the centre value fx (uninterpreted arithmetic: the form of the references) */
+#define NV_DESCENT_TEST(fx, fy, m1, delta) (NV_FSUB(fx, fy) >= NV_FMUL(m1, delta))
 struct nv_test { _Bool res; uint64_t at; double eps; };
 struct nv_test nv_econv, nv_sconv;     /* ghost: last evaluation of bundle.econverged / sconverged: result, bundle version, epsilon */
 uint64_t nv_status_at;                 /* ghost: evaluation count at the last write of m_point.m_status */
+/* ghost: the erased quantities the step tests of csearch_t::search compare, as computed for the LAST trial (at = evaluation count):
+ * delta = bundle.delta(miu/t), e = bundle.smeared_e(), gydot = gy.dot(y - x), sdot = smeared_s.dot(y - x) */
+struct nv_trial_t { double delta, e, gydot, sdot; uint64_t at; };
+struct nv_trial_t nv_trial;
+static double nv_pb_delta(const struct nv_pbundle* b) { double r = nv_nondet_double(); nv_trial.delta = r; nv_trial.at = nv_ver_counter; return r; }
+static double nv_pb_smeared_e(const struct nv_pbundle* b) { double r = nv_nondet_double(); nv_trial.e = r; return r; }
+static double nv_gy_dot(void) { double r = nv_nondet_double(); nv_trial.gydot = r; return r; }
+static double nv_s_dot(void) { double r = nv_nondet_double(); nv_trial.sdot = r; return r; }
 uint64_t nv_w_bver, nv_w_bsolved, nv_w_centre; double nv_w_centre_fx;   /* witnesses: the solver's bundle (version, solved version, centre) */
 
 static uint64_t nv_fresh64(void) { uint64_t v = nv_nondet_uint64_t(); __CPROVER_assume(v != 0); return v; }
@@ -30,7 +41,7 @@ static double nv_pb_fx(const struct nv_pbundle* b) { return b->m_fx; }
 /* bundle_t::moveto(y, gy, fy): (y, gy, fy) becomes the proximity centre (src/solver/bundle.cpp: m_x = y; m_gx = gy; m_fx = fy);
  * bundle_t::append(y, gy, fy): the centre is kept; both change the bundle */
 static void nv_pb_moveto(struct nv_pbundle* b, const struct nv_vec* y, const struct nv_vec* gy, double fy)
-{ b->ver = nv_fresh64(); b->m_x = *y; b->m_gx = *gy; b->m_fx = fy; nv_pb_note(b); }
+{ b->ver = nv_fresh64(); b->prev_fx = b->m_fx; b->m_x = *y; b->m_gx = *gy; b->m_fx = fy; nv_pb_note(b); }
 static void nv_pb_append(struct nv_pbundle* b, const struct nv_vec* y, const struct nv_vec* gy, double fy) { b->ver = nv_fresh64(); nv_pb_note(b); }
 /* bundle_t::make(state, ..) -> bundle_t(state, max_size): the centre is the state's (x, gx, fx) (constructor contract in specs/C03/bundle.h) */
 static struct nv_pbundle nv_pb_make(const struct nv_state* s)
@@ -52,6 +63,17 @@ static struct nv_csearch nv_cs_make(const struct nv_function* f)
 struct nv_vec nv_seq_x;
 static struct nv_vec* nv_seq_update(void) { nv_seq_x = nv_vec_fresh(); return &nv_seq_x; }
 
+/* RQB moves its state with state.update(y, gy, fy) right after bundle.moveto(y, gy, fy) (src/solver/rqb.cpp; the assert(fy < state.fx())
+ * next to it is compiled out).  C02 "the value is not larger than the starting value" for RQB: every such move is to the trial of the
+ * last search, and that trial passed the sufficient-descent test against the centre it replaces: f(centre) - fy >= m1 * delta
+ * (with delta >= 0, a property of the erased numerics, the value then never increases). */
+static _Bool nv_rqb_move(struct nv_state* s, const struct nv_pbundle* b, const struct nv_csearch* cs, const struct nv_vec* y, const struct nv_vec* gy, double fy)
+{
+  __CPROVER_assert(NV_SAME(fy, cs->m_point.m_fy) && nv_trial.at == nv_ver_counter, "RQB moves its state only to the trial point returned by the last curve search");
+  __CPROVER_assert(NV_DESCENT_TEST(b->prev_fx, fy, cs->m_m1, nv_trial.delta), "RQB moves its state only to a trial that passed the sufficient-descent test f(centre) - fy >= m1 * delta of that search");
+  return nv_state_update3(s, y, gy, fy);
+}
+
 /* ---- csearch_t::search */
 #define NV_STEP(st) ((st) == NVE_csearch_status_null_step || (st) == NVE_csearch_status_descent_step || (st) == NVE_csearch_status_cutting_plane_step)
 #define NV_PT (self->m_point)
@@ -60,7 +82,7 @@ __CPROVER_requires(__CPROVER_is_fresh(self, sizeof(*self)) && __CPROVER_is_fresh
 /* callers (rqb / fpba) enter with budget left: their own loop condition is the same test, with nothing evaluated in between */ \
 __CPROVER_requires(nv_gcount <= nv_ver_counter && nv_ver_counter < 2000000000u && nv_ver_counter + nv_gcount < (uint64_t)max_evals && nv_status_at <= nv_ver_counter) \
 __CPROVER_requires(bundle->m_x.id != 0 && bundle->ver != 0) \
-__CPROVER_assigns(self->m_point, bundle->ver, bundle->solved_ver, nv_ver_counter, nv_gcount, nv_econv, nv_sconv, nv_status_at, nv_w_bver, nv_w_bsolved, nv_w_centre, nv_w_centre_fx) \
+__CPROVER_assigns(self->m_point, bundle->ver, bundle->solved_ver, nv_ver_counter, nv_gcount, nv_econv, nv_sconv, nv_status_at, nv_trial, nv_w_bver, nv_w_bsolved, nv_w_centre, nv_w_centre_fx) \
 __CPROVER_ensures(__CPROVER_return_value == &self->m_point) \
 /* C02: the returned (y, gy, fy) is one evaluation */ \
 __CPROVER_ensures(NV_TRIPLE(NV_PT.m_y, NV_PT.m_gy, NV_PT.m_fy)) \
@@ -76,12 +98,24 @@ __CPROVER_ensures(!NV_ISFIN(NV_PT.m_fy) ==> NV_PT.m_status == NVE_csearch_status
  * reset at entry, so when the budget test ended the loop after a `continue` / new trial the status of the PREVIOUS call came back \
  * with the new point (RQB then moved to a trial point that was not accepted and returned a value above the starting one) */ \
 __CPROVER_ensures((NV_STEP(NV_PT.m_status) || NV_PT.m_status == NVE_csearch_status_converged) ==> nv_status_at == nv_ver_counter) \
+/* C02 (f <= f0 for RQB; (2) of the references): a step is reported only for a trial that PASSED the corresponding tests in this call, \
+ * on the quantities computed for that trial: \
+ *   serious step (descent_step, cutting_plane_step): sufficient descent  f(centre) - fy >= m1 * delta; \
+ *   descent_step: gy.(y - x) >= -m2 * delta;   cutting_plane_step: not that, and (sconverged or s.(y - x) >= -m4 * delta); \
+ *   null_step: no sufficient descent and e <= m3 * delta */ \
+__CPROVER_ensures(NV_STEP(NV_PT.m_status) ==> nv_trial.at == nv_ver_counter) \
+__CPROVER_ensures(NV_SERIOUS(NV_PT.m_status) ==> NV_DESCENT_TEST(bundle->m_fx, NV_PT.m_fy, self->m_m1, nv_trial.delta)) \
+__CPROVER_ensures(NV_PT.m_status == NVE_csearch_status_descent_step ==> nv_trial.gydot >= NV_FMUL(NV_FNEG(self->m_m2), nv_trial.delta)) \
+__CPROVER_ensures(NV_PT.m_status == NVE_csearch_status_cutting_plane_step ==> (!(nv_trial.gydot >= NV_FMUL(NV_FNEG(self->m_m2), nv_trial.delta)) \
+  && ((nv_sconv.res && nv_sconv.at == bundle->ver) || nv_trial.sdot >= NV_FMUL(NV_FNEG(self->m_m4), nv_trial.delta)))) \
+__CPROVER_ensures(NV_PT.m_status == NVE_csearch_status_null_step ==> (!NV_DESCENT_TEST(bundle->m_fx, NV_PT.m_fy, self->m_m1, nv_trial.delta) \
+  && nv_trial.e <= NV_FMUL(self->m_m3, nv_trial.delta))) \
 /* the proximity centre is not moved; budget: at most one evaluation beyond max_evals */ \
 __CPROVER_ensures(bundle->m_x.id == __CPROVER_old(bundle->m_x.id) && NV_SAME(bundle->m_fx, __CPROVER_old(bundle->m_fx)) && bundle->ver != 0) \
 __CPROVER_ensures(nv_ver_counter > __CPROVER_old(nv_ver_counter) && nv_gcount - __CPROVER_old(nv_gcount) == nv_ver_counter - __CPROVER_old(nv_ver_counter) && nv_gcount <= nv_ver_counter && nv_ver_counter < 2000000000u && nv_ver_counter + nv_gcount < (uint64_t)max_evals + 2) \
 __CPROVER_ensures(nv_w_bver == bundle->ver && nv_w_bsolved == bundle->solved_ver && nv_w_centre == bundle->m_x.id && NV_SAME(nv_w_centre_fx, bundle->m_fx) && nv_status_at <= nv_ver_counter)
 #define NV_LOOP_csearch_search_1 \
-__CPROVER_assigns(self->m_point, tL, tR, bundle->ver, bundle->solved_ver, nv_ver_counter, nv_gcount, nv_econv, nv_sconv, nv_status_at, nv_w_bver, nv_w_bsolved, nv_w_centre, nv_w_centre_fx) \
+__CPROVER_assigns(self->m_point, tL, tR, bundle->ver, bundle->solved_ver, nv_ver_counter, nv_gcount, nv_econv, nv_sconv, nv_status_at, nv_trial, nv_w_bver, nv_w_bsolved, nv_w_centre, nv_w_centre_fx) \
 __CPROVER_loop_invariant(nv_gcount <= nv_ver_counter && nv_ver_counter < 2000000000u && nv_ver_counter + nv_gcount < (uint64_t)max_evals + 2 && nv_status_at <= __CPROVER_loop_entry(nv_ver_counter) && NV_PT.m_status == __CPROVER_loop_entry(NV_PT.m_status)) \
 __CPROVER_loop_invariant(nv_ver_counter >= __CPROVER_loop_entry(nv_ver_counter) && nv_gcount - __CPROVER_loop_entry(nv_gcount) == nv_ver_counter - __CPROVER_loop_entry(nv_ver_counter)) \
 __CPROVER_loop_invariant(bundle->m_x.id == __CPROVER_loop_entry(bundle->m_x.id) && NV_SAME(bundle->m_fx, __CPROVER_loop_entry(bundle->m_fx)) && bundle->ver != 0) \
@@ -100,7 +134,7 @@ __CPROVER_decreases((uint64_t)max_evals + 100 - nv_ver_counter - nv_gcount)
  *      caught by the next search, which reports failed). */
 #define NV_BUNDLE_CONV (nv_econv.res && nv_sconv.res && nv_econv.at == nv_w_bver && nv_sconv.at == nv_w_bver && nv_w_bsolved == nv_w_bver \
   && NV_SAME(nv_econv.eps, nv_epsilon) && NV_SAME(nv_sconv.eps, nv_epsilon))
-#define NV_PROX_GHOSTS nv_econv, nv_sconv, nv_status_at, nv_w_bver, nv_w_bsolved, nv_w_centre, nv_w_centre_fx
+#define NV_PROX_GHOSTS nv_econv, nv_sconv, nv_status_at, nv_trial, nv_w_bver, nv_w_bsolved, nv_w_centre, nv_w_centre_fx
 #define NV_PROX_ENSURES_C02(EXTRA) \
 __CPROVER_ensures(NV_STATUS_OK(NV_RET.m_status)) \
 __CPROVER_ensures(NV_RET.ver != 0 && NV_CONS_FULL(NV_RET)) \
